@@ -1,8 +1,123 @@
-/- Driver operations of the Binding model (stub until the model lands). -/
+/-
+  Driver operations of the Binding model (C10).
+
+  op "binding.apply":
+    {"op": "binding.apply",
+     "sig": {"po": [names], "pk": [names], "va": name|null, "ko": [names], "vk": name|null, "unann": [names]},
+     "args": [strings], "kwargs": [[name, string], …],
+     "cls": "PosKwdBinding"            -- optional; default: the class the regenerated matrix selects
+    }
+  answers
+    {"cls": class used, "row": [5 bools], "accepted": bool,
+     "out": {"args": [[obs, value], …], "kwargs": [[name, obs, value], …]}  |  "out": "raise",
+     "expected": {"args": …, "kwargs": …}}
+  where obs = index of the parameter (declaration order) whose routine converted the argument,
+  "varpos" / "varkwd" for the `*args` / `**kwargs` routine, null for untouched (not converted, or converted by
+  the no-op routine of an unannotated parameter), "key" for the `else k` slip (value := keyword name).
+  A class name the model does not know answers {"err": "unsupported"}.
+-/
 import TypelibModel.Drv.Core
+import TypelibModel.Model.Binding
+import TypelibModel.Gen.BindingMatrix
 open Lean
 namespace Typelib.Drv
+open Typelib.Binding
+namespace BindingOps
 
-def handleBinding (_st : St) (_op : String) (_j : Json) : Option (Except String (St × Json)) := none
+def jNames (j : Json) : Except String (List Str) :=
+  match j with
+  | .arr a => a.toList.mapM jStr
+  | _ => .error s!"not a list of names: {j}"
+
+def jOptName (j : Except String Json) : Except String (Option Str) :=
+  match j with
+  | .ok (.str s) => .ok (some (S s))
+  | .ok .null => .ok none
+  | .error _ => .ok none
+  | .ok j => .error s!"not a name or null: {j}"
+
+def jNamesOr (j : Except String Json) : Except String (List Str) :=
+  match j with
+  | .ok v => jNames v
+  | .error _ => .ok []
+
+def sigOfJson (j : Json) : Except String Sig := do
+  let po ← jNamesOr (j.getObjVal? "po")
+  let pk ← jNamesOr (j.getObjVal? "pk")
+  let va ← jOptName (j.getObjVal? "va")
+  let ko ← jNamesOr (j.getObjVal? "ko")
+  let vk ← jOptName (j.getObjVal? "vk")
+  let unann ← jNamesOr (j.getObjVal? "unann")
+  pure { po := po, pk := pk, va := va, ko := ko, vk := vk, unann := unann }
+
+def callOfJson (j : Json) : Except String (Call String) := do
+  let args ← match j.getObjVal? "args" with
+    | .ok (.arr a) => a.toList.mapM fun x => match x with
+      | .str s => .ok s
+      | _ => .error "positional argument must be a string"
+    | _ => .error "args"
+  let kwargs ← match j.getObjVal? "kwargs" with
+    | .ok (.arr a) => a.toList.mapM fun x => match x with
+      | .arr #[.str k, .str v] => .ok (S k, v)
+      | _ => .error "keyword argument must be [name, string]"
+    | _ => .error "kwargs"
+  pure { args := args, kwargs := kwargs }
+
+def refToJson (s : Sig) (p : Str) : Json :=
+  if s.va = some p then .str "varpos"
+  else if s.vk = some p then .str "varkwd"
+  else match s.names.idxOf? p with
+    | some i => jN i
+    | none => .str s!"?{U p}"
+
+def obsToJson (s : Sig) : Obs → Json
+  | .by p => refToJson s p
+  | .untouched => .null
+  | .key => .str "key"
+
+def cellValue : Cell String → String
+  | .conv _ v => v
+  | .raw v => v
+  | .key k => U k
+
+def outToJson (s : Sig) (o : Out String) : Json :=
+  Json.mkObj [
+    ("args", .arr (o.args.map fun c => Json.arr #[obsToJson s (observe s c), .str (cellValue c)]).toArray),
+    ("kwargs", .arr (o.kwargs.map fun e =>
+      Json.arr #[.str (U e.1), obsToJson s (observe s e.2), .str (cellValue e.2)]).toArray)]
+
+def rowToJson (r : Row) : Json :=
+  .arr #[.bool r.1, .bool r.2.1, .bool r.2.2.1, .bool r.2.2.2.1, .bool r.2.2.2.2]
+
+/-- The class name the table has for a key (also when the model does not know the class). -/
+def selectName : Matrix → Row → Option String
+  | [], _ => none
+  | e :: es, r => if rowKey e = r then some e.2.2.2.2.2 else selectName es r
+
+end BindingOps
+open BindingOps
+
+def handleBinding (st : St) (op : String) (j : Json) : Option (Except String (St × Json)) :=
+  match op with
+  | "binding.apply" => some do
+    let s ← sigOfJson (← j.getObjVal? "sig")
+    let c ← callOfJson j
+    let row := truth s
+    let clsName : Option String := match j.getObjValAs? String "cls" with
+      | .ok n => some n
+      | .error _ => selectName Typelib.Gen.bindingMatrix row
+    match clsName with
+    | none => pure (st, Json.mkObj [("err", .str "unsupported"), ("why", .str "no row for this key")])
+    | some n =>
+      match classOfName n with
+      | none => pure (st, Json.mkObj [("err", .str "unsupported"), ("cls", .str n)])
+      | some b =>
+        let out : Json := match b.apply (layout s) c with
+          | some o => outToJson s o
+          | none => .str "raise"
+        pure (st, Json.mkObj [
+          ("cls", .str b.name), ("row", rowToJson row), ("accepted", .bool (accepted s c)),
+          ("wf", .bool s.wf), ("out", out), ("expected", outToJson s (expected s c))])
+  | _ => none
 
 end Typelib.Drv
